@@ -388,8 +388,37 @@ Qed.
 Lemma opt_some t w : w <> VNone -> L (TOptional t) w = L t w.
 Proof. intros H. destruct w; try reflexivity. congruence. Qed.
 
-Lemma union_some ts w : w <> VNone -> L (TUnion ts) w = union_scan lc L w ts ts.
+Lemma nn_match {A} (w : pv) (x y : A) :
+  w <> VNone ->
+  match w with VNone => x | VBool _ | VInt _ | VFloat _ | VStr _ | VBytes _ _ _ | VSeq _ _ _ | VDict _ _ _
+             | VEnum _ _ _ | VTok _ | VNT _ _ | VInst _ _ => y end = y.
 Proof. intros H. destruct w; try reflexivity. congruence. Qed.
+
+Lemma load_union_none ts : In TNone ts -> L (TUnion ts) VNone = Ok VNone.
+Proof.
+  intros Hin. assert (Hex : existsb is_tnone ts = true) by (apply existsb_exists; exists TNone; split; [assumption|reflexivity]).
+  cbn [load]. destruct ts as [|a [|b [|c r]]]; try (rewrite Hex; reflexivity).
+  destruct (is_tnone a || is_tnone b) eqn:E; [reflexivity|].
+  cbn [existsb] in Hex. rewrite orb_false_r in Hex. congruence.
+Qed.
+
+Lemma load_union_member ts t w k :
+  union_ok ts = true -> In t ts -> wire_of t = Some k -> shape k w -> w <> VNone ->
+  L (TUnion ts) w = L t w.
+Proof.
+  intros Hok Hin Hw Hs Hn. unfold union_ok in Hok. apply andb_true_iff in Hok as [Hd Hnf].
+  pose proof (union_scan_pick ts w k t ts [] Hd Hin Hw Hs) as Hpick.
+  cbn [load]. destruct ts as [|a [|b [|c r]]].
+  - destruct Hin.
+  - destruct w; try exact Hpick. congruence.
+  - destruct (is_tnone a || is_tnone b) eqn:E.
+    + cbn [none_first2] in Hnf. destruct (is_tnone a) eqn:Ea; [discriminate|]. cbn [orb] in E.
+      assert (t = a) as ->.
+      { destruct Hin as [<-|[<-|[]]]; [reflexivity|]. destruct b; cbn in E; try discriminate; cbn in Hw; discriminate. }
+      destruct w; try reflexivity. congruence.
+    + destruct w; exact Hpick.
+  - destruct w; try exact Hpick. congruence.
+Qed.
 
 Lemma nt_nondict n fts w :
   (forall k o kvs, w <> VDict k o kvs) ->
@@ -500,14 +529,13 @@ Proof.
   - (* TUnion *)
     inversion Hr as [| | | | | | | | | | | | | |? Hin|? t ? Hin Hok Hnn Hv| | |]; subst.
     + exists VNone. split; [apply dump_scalar; reflexivity|]. split; [|tauto].
-      cbn [load]. assert (Hex : existsb is_tnone ts = true) by (apply existsb_exists; exists TNone; split; [assumption|reflexivity]).
-      rewrite Hex. reflexivity.
+      apply load_union_none. assumption.
     + eapply Forall_forall in IH; [|exact Hin].
       destruct (IH v Hv) as (w & Hd & Hl & Hw). exists w. split; [assumption|]. split; [|assumption].
-      rewrite union_some by (apply Hw; assumption).
       assert (Ht : t <> TNone) by (intros ->; inversion Hv; congruence).
-      destruct (union_member_wire ts [] t Hok Hin Ht) as [k Hk].
-      rewrite (union_scan_pick ts w k t ts [] Hok Hin Hk (shape_of_dump t v k w Hv Hk Hd)). assumption.
+      assert (Hdist : wires_distinct [] ts = true) by (unfold union_ok in Hok; apply andb_true_iff in Hok; tauto).
+      destruct (union_member_wire ts [] t Hdist Hin Ht) as [k Hk].
+      rewrite (load_union_member ts t w k Hok Hin Hk (shape_of_dump t v k w Hv Hk Hd) (Hw Hnn)). assumption.
   - inversion Hr; subst. apply rt_literal; assumption.
   - (* TNamedTuple *)
     inversion Hr as [| | | | | | | | | | | | | | | | |? ? xs H2|]; subst.
